@@ -216,8 +216,8 @@ def run_c12(ctx):
                         "chunk sums beyond 2^33 are outside the property (decryption by table lookup)"]
 
 
-SIGMA_PROTOCOLS = ["dlog", "aggregate_dlog", "dlog_eq", "com_eq", "com_eq_different_groups", "com_enc_eq", "vcom_eq", "com_lin", "com_mult", "and_dlog_com_eq", "replicate_dlog"]
-SIGMA_BOUND = {"dlog", "aggregate_dlog", "com_eq", "com_eq_different_groups", "com_enc_eq", "vcom_eq", "com_mult", "and_dlog_com_eq", "replicate_dlog"}
+SIGMA_PROTOCOLS = ["dlog", "aggregate_dlog", "dlog_eq", "com_eq", "com_eq_different_groups", "com_enc_eq", "vcom_eq", "com_lin", "com_mult", "and_dlog_com_eq", "replicate_dlog", "enc_trans"]
+SIGMA_BOUND = {"dlog", "aggregate_dlog", "com_eq", "com_eq_different_groups", "com_enc_eq", "vcom_eq", "com_mult", "and_dlog_com_eq", "replicate_dlog", "enc_trans"}
 
 
 def run_c07(ctx):
@@ -230,7 +230,7 @@ def run_c07(ctx):
     rows += [json.loads(x) for x in te.replays]
     # (b) the protocols as linear maps over a small field
     def one(p):
-        cfg = "Sigma_%s.cfg" % p if quick or p not in ("com_lin", "com_mult") else "Sigma_%s_full.cfg" % p
+        cfg = "Sigma_%s.cfg" % p if quick or p not in ("com_lin", "com_mult", "enc_trans") else "Sigma_%s_full.cfg" % p
         return p, ctx.tlc(SPEC, "Sigma.tla", cfg, name="Sigma_" + p, workers=2, timeout=6000)
     with ThreadPoolExecutor(max_workers=6) as ex:
         runs = list(ex.map(one, SIGMA_PROTOCOLS))
@@ -326,8 +326,13 @@ def run_c08(ctx):
         rows = [x for i, x in enumerate(rows) if len(x["ops"]) == 2 or i % 2 == 0]
     else:
         rows = [x for i, x in enumerate(rows) if i % 6 == 0]
+    # revocation by many shares: five revokers under identities near 2^32, thresholds 4 and 5
+    rv = ctx.tlc(SPEC, "IdIssuance.tla", "IdIssuance_rev.cfg", workers=8, timeout=3000)
+    big = [json.loads(x) for x in rv.replays]
+    big = [x for x in big if len(x["ops"]) == 3 and x["ops"][-1]["op"] == "revoke"]
+    rows += big[:: (6 if quick else 1)]
     _row_check(ctx, "c08-replay", rows, "c08", {"request:v0": 50, "request:v1": 50, "create:true": 100, "create:false": 20, "verify:none": 20, "verify:bitflips": 20, "bitflip": 200,
-                                                 "verify:other_ip": 10, "verify:other_ar_key": 10, "verify:swap_ar_data": 4, "revoke:true": 20, "revoke:false": 5}, parts=14)
+                                                 "verify:other_ip": 10, "verify:other_ar_key": 10, "verify:swap_ar_data": 4, "revoke:true": 20, "revoke:false": 5, "request:v0:4of5": 3, "request:v1:5of5": 3}, parts=14)
     c = json.loads(json.dumps(next(x for x in rows if x["ops"][-1]["op"] == "revoke" and x["ops"][-1]["ok"] and x["ops"][1]["ok"])))
     c["ops"][-1]["ok"] = False
     _canary(ctx, "c08-replay", c)
@@ -347,18 +352,19 @@ def run_c18(ctx):
     ctx.exhaustive = True
     if quick:
         rows = [x for i, x in enumerate(rows) if x["perturb"] != "none" and i % 3 == 0 or x["perturb"] == "none" and i % 5 == 0
-                or (x["perturb"] in ("challenge", "credential") and x["stmt"][0]["k"] == "in_range" and i % 2 == 0)]
+                or (x["perturb"] in ("challenge", "credential") and x["stmt"] and x["stmt"][0]["k"] == "in_range" and i % 2 == 0)
+                or x["via"] == "mixed_presentation" or not x["stmt"] or x["perturb"] == "proof_truncated" and i % 2 == 0]
     def classify(rec, beh):
         # R1: Version1 (even row index) range-only statements are not bound to challenge / credential
         b = json.loads(beh) if isinstance(beh, str) else beh
-        if (b["idx"] % 2 == 0 and b["perturb"] in ("challenge", "credential") and all(a["k"] == "in_range" for a in b["stmt"])
+        if (b["idx"] % 2 == 0 and b["perturb"] in ("challenge", "credential") and b["stmt"] and b["via"] == "commitments" and all(a["k"] == "in_range" for a in b["stmt"])
                 and rec.get("exp") is False and rec.get("got") is True):
             return "v1-range-proof-unbound"
         return None
     _row_check(ctx, "c18-replay", rows, "c18", classify=classify, need={"reveal:accept": 2, "in_range:accept": 5, "in_range:false": 10, "in_set:accept": 4, "in_set:false": 10, "not_in_set:accept": 10,
                                                  "not_in_set:false": 4, "in_range:perturbed": 10, "in_set:perturbed": 5, "account_presentation:accept": 5, "account_presentation:perturbed": 20,
-                                                 "web3_presentation:accept": 5, "web3_presentation:perturbed": 20, "web3_presentation:false": 20}, parts=14)
-    c = json.loads(json.dumps(next(x for x in rows if x["accept"] and x["stmt"][0]["k"] == "in_range")))
+                                                 "web3_presentation:accept": 5, "web3_presentation:perturbed": 20, "web3_presentation:false": 20, "mixed_presentation:accept": 2, "mixed_presentation:perturbed": 5}, parts=14)
+    c = json.loads(json.dumps(next(x for x in rows if x["accept"] and x["stmt"] and x["stmt"][0]["k"] == "in_range")))
     c["accept"] = False
     c["truth"] = False
     _canary(ctx, "c18-replay", c)
